@@ -179,6 +179,13 @@ func init() {
 			if k := i - ctx.N(18, 120) - 64; k >= 0 && k < 30 {
 				return fractionalIntBoundCase(k)
 			}
+			if k := i - ctx.N(18, 120) - 94; k >= 0 && k < 8 {
+				// anyOf members that state different keywords on one key: a document that satisfies one member is valid
+				return anyOfOverlapCase(k)
+			}
+			if k := i - ctx.N(18, 120) - 102; k >= 0 && k < 8 {
+				return sharedMemberStringCase(k)
+			}
 			return nil
 		},
 		args: func(r *sg.Rng, root *sg.Schema) []string {
@@ -255,6 +262,9 @@ func init() {
 		}
 		if k := i - ctx.N(12, 90) - ctx.N(8, 32) - 128; k >= 0 && k < 8 {
 			return nearTwinDefaultCase(k)
+		}
+		if k := i - ctx.N(12, 90) - ctx.N(8, 32) - 136 - 3*nearTwinVariants; k >= 0 && k < 12 {
+			return optionNeutralCase(k)
 		}
 		if k := i - ctx.N(12, 90) - ctx.N(8, 32) - 136; k >= 0 && k < 3*nearTwinVariants {
 			// two contenders for one type name that differ in a required list / a nullable type
@@ -407,6 +417,9 @@ func init() {
 			}
 			if i < 245 {
 				return derivedNameCollisionCase(i - 227)
+			}
+			if i < 269 {
+				return longEnumCase(i - 245)
 			}
 			return nil
 		},
@@ -2199,6 +2212,8 @@ func strataForC01(ctx *Ctx) []*sem.Case {
 	add(24, branchFieldCollisionCase)
 	add(8, sharedMemberStringCase)
 	add(8, exactSizeGridCase)
+	add(12, longEnumCase)
+	add(12, optionNeutralCase)
 	add(12, sizedTwinCase)
 	add(3*nearTwinVariants, nearTwinCase)
 	add(72, emptyIntervalCase)
